@@ -1,6 +1,7 @@
 import DspVerif.Driver.Proto
 import DspVerif.Model.MathFns
-/-! driver handlers for C17: runs `Model/MathFns` at `Float` on one correspondence case -/
+/-! driver handlers for C17: runs `Model/MathFns` at `Float` on one correspondence case; the dB conversions and
+`abs2(real_t)` are the machine-generated `Gen.*` of `Gen/Dynamics.lean` (imported through `Model/MathFns`) -/
 namespace Dsp.Driver
 open Dsp.Proto Dsp.MathFns
 
@@ -64,15 +65,15 @@ def h17 : List String → Option String
   | "tanh" :: a => rr Fn.tanh a
   | "deg2rad" :: a => rr deg2rad a
   | "rad2deg" :: a => rr rad2deg a
-  | "rabs2" :: a => rr (fun x => x * x) a
+  | "rabs2" :: a => rr Gen.abs2r a
   | "exp" :: a => rr Fn.exp a
   | "log" :: a => rr Fn.log a
   | "log2" :: a => rr MathFns.log2 a
   | "log10" :: a => rr Fn.log10 a
-  | "pow2db" :: a => rr pow2db a
-  | "mag2db" :: a => rr mag2db a
-  | "db2pow" :: a => rr db2pow a
-  | "db2mag" :: a => rr db2mag a
+  | "pow2db" :: a => rr Gen.pow2db a
+  | "mag2db" :: a => rr Gen.mag2db a
+  | "db2pow" :: a => rr Gen.db2pow a
+  | "db2mag" :: a => rr Gen.db2mag a
   | "v.abs" :: a => vrr Fn.abs a
   | "v.round" :: a => vrr Fn.round a
   | "v.expj" :: a => vrc expj a
@@ -84,10 +85,10 @@ def h17 : List String → Option String
   | "v.log" :: a => vrr Fn.log a
   | "v.log2" :: a => vrr MathFns.log2 a
   | "v.log10" :: a => vrr Fn.log10 a
-  | "v.pow2db" :: a => vrr pow2db a
-  | "v.mag2db" :: a => vrr mag2db a
-  | "v.db2pow" :: a => vrr db2pow a
-  | "v.db2mag" :: a => vrr db2mag a
+  | "v.pow2db" :: a => vrr Gen.pow2db a
+  | "v.mag2db" :: a => vrr Gen.mag2db a
+  | "v.db2pow" :: a => vrr Gen.db2pow a
+  | "v.db2mag" :: a => vrr Gen.db2mag a
   -- complex-argument functions
   | "cabs" :: a => cr cabs a
   | "abs2" :: a => cr Cx.abs2 a
